@@ -3,11 +3,11 @@ CONSTANTS
   GuardTrain = TRUE
   GridMaxN = 600
   MultiMaxN = 60
-  CalSizes = {8}
-  ScoreLo <- Neg1
-  ScoreHi = 2
-  WeightSeq <- W12
-  AlphaSet <- Alphas4
+  CalSizes = {4}
+  ScoreLo <- Neg3
+  ScoreHi = 3
+  WeightSeq <- W124
+  AlphaSet <- A34
   RankMaxN = 60
   Export = TRUE
 CONSTRAINT CorrExport
